@@ -128,7 +128,6 @@ for _e in (True, False):
 def _mk_closest():
     def body(env):
         env.abstract_div = True
-        env.logic = "QF_NRA"
         pR, pZ, aR, aZ, bR, bZ = pts(env, ["pR", "pZ", "aR", "aZ", "bR", "bZ"])
         env.assume((bR - aR) * (bR - aR) + (bZ - aZ) * (bZ - aZ) > 0, "a != b")
         if env.mode == "sym":
@@ -178,7 +177,6 @@ OBLIGATIONS.append(Ob("closest_approach", _mk_closest(), tier="quick", family="c
 # ---------------------------------------------------------------------------------------------
 def _mk_area(n):
     def body(env):
-        env.logic = "QF_NRA"
         poly = [(env.real("r%d" % i, lo=LO, hi=HI), env.real("z%d" % i, lo=LO, hi=HI)) for i in range(n)]
         a = polygons.area(poly)
         shoe = 0
@@ -221,8 +219,6 @@ def _proper_cross(env, A, B, C, D):
 
 def _mk_pintersect(n1, n2, closed1, closed2):
     def body(env):
-        env.logic = "QF_NRA"
-        env.abstract_div = True
         P1 = [(env.real("p%dr" % i, lo=LO, hi=HI), env.real("p%dz" % i, lo=LO, hi=HI)) for i in range(n1)]
         P2 = [(env.real("q%dr" % i, lo=LO, hi=HI), env.real("q%dz" % i, lo=LO, hi=HI)) for i in range(n2)]
         got = polygons.intersect([p[0] for p in P1], [p[1] for p in P1], [p[0] for p in P2], [p[1] for p in P2], closed1=closed1, closed2=closed2)
